@@ -112,8 +112,29 @@ def build_traces(path, tier, seed):
             else:
                 add({"kind": "rel", "law": "same", "clause": "EntryPointsAgree", "tol": enc(1e-12), "scale": enc(scale), "x": enc_seq(flat[0]), "y": enc_seq(flat[e])},
                     {"kind": "rel", "law": "EntryPointsAgree", "n": n, "entry": e, "shape_mismatch": True})
+    # call history: consecutive calls in one process that share dt, xi, the number of periods and the two end periods
+    # but differ in the interior periods / in their order (each period's series must depend on that period only)
+    from eqsig import sdof
+    for j in range(6 if tier == "quick" else 40):
+        n = int(rng.integers(20, 120))
+        a, shape = gen.record(rng, n, amp=1.0)
+        dt = 0.01
+        xi = [0.05, 0.0, 0.3][j % 3]
+        grid1 = np.linspace(0.2, 2.0, 4)
+        grid2 = np.array([0.2, 0.43, 0.93, 2.0]) if j % 2 else grid1[[0, 2, 1, 3]]
+        fn = [sdof.response_series, sdof.nigam_and_jennings_response, lambda m, d, p, x: eqsig_obj(m, d, p, x)][j % 3]
+        fn(a, dt, grid1, xi)
+        u, v, acc = fn(a, dt, grid2, xi)
+        for k, T in enumerate(grid2):
+            add({"kind": "series", "T": enc(T), "xi": enc(xi), "dt": enc(dt), "a": enc_seq(a), "u": enc_seq(u[k]), "v": enc_seq(v[k]), "acc": enc_seq(acc[k])},
+                {"kind": "series", "n": n, "T_over_dt": T / dt, "xi": xi, "dt": dt, "entry": "second call with another interior grid (%d)" % (j % 3), "shape": shape})
     write_ndjson(path, recs)
     return meta
+
+
+def eqsig_obj(m, dt, periods, xi):
+    import eqsig
+    return eqsig.AccSignal(m, dt).response_series(response_times=np.array(periods), xi=xi)
 
 
 def run(tier, seed):
